@@ -381,6 +381,7 @@ def run_shard(spec):
         counters["churn_histories"] = counters.get("churn_histories", 0) + 1
     counters.update({"monitor_" + k: v for k, v in mgrmon.COUNTS.items()})
     counters["anchors_reached"] = dict(mgrmon.REACH)
+    counters["queries_checked_read_only"] = lockstep.STATS.get("queries_checked", 0)
     return {"evaluations": counters.get("histories", 0), "digests": sorted(digests), "samples": samples,
             "counters": counters, "violations": violations, "known": known}
 
